@@ -432,6 +432,11 @@ class FractionValue:
 
         def GetFractionalPart(value: float) -> float:
             str_value = str(value)
+            if "e" in str_value.lower():
+                # exponent notation (i.e.: 3e-05): write all the decimals
+                from decimal import Decimal
+
+                str_value = format(Decimal(str_value), "f")
             pos = str_value.find(".")
             return float("0." + str_value[pos + 1 :])
 
